@@ -338,20 +338,47 @@ Definition route (cfg : config) (rules : list rule) (t : target) : outcome :=
              else route_plain (c_idna cfg) (c_puny cfg) rules PDirect t
   end.
 
-(* ------------------------------------------------------------------ one exchange as a trace of socket events *)
-(* net.go: Dialer.DialContext applies the redirect to every dial; dialContext retries the SAME address
-   (attempts <= 0 means 1).  `failures` = how many consecutive dial attempts fail (environment). *)
+(* ------------------------------------------------------------------ net.go: the Dialer, one exchange as a trace *)
 Inductive event := EvDial (addr : str) | EvUse (addr : str) (tls : bool) (w : wire) (named : str).
 
 Definition effective_attempts (n : nat) : nat := match n with O => 1%nat | _ => n end.
 
-Definition exchange (cfg : config) (rules : list rule) (t : target) (attempts failures : nat) : list event :=
-  match route cfg rules t with
-  | OFail => []
-  | OSent a tls w n =>
-      if Nat.ltb failures (effective_attempts attempts)
-      then repeat (EvDial a) (S failures) ++ [EvUse a tls w n]
-      else repeat (EvDial a) (effective_attempts attempts)
+(* Dialer.dialContext: `for i := 0; i < attempts; i++ { conn, err := dial(ctx, network, address); if err == nil
+   { return conn, nil } ... }`.  outcomes = what the socket layer answers to the successive attempts (true =
+   connected; no answer left = failure): ANY list.  in_loop = the redirect statement stands inside the loop (one of
+   the two source shapes the translator knows): then every attempt maps the address the previous attempt used.
+   Result: the addresses handed to the socket layer, in order, and the address of the connection obtained. *)
+Fixpoint dial_loop (rules : list rule) (in_loop : bool) (n : nat) (outcomes : list bool) (addr : str)
+  : list str * option str :=
+  match n with
+  | O => ([], None)
+  | S n' =>
+      let a := if in_loop then dial_redirect rules addr else addr in
+      match outcomes with
+      | true :: _ => ([a], Some a)
+      | _ => let r := dial_loop rules in_loop n' (tl outcomes) a in (a :: fst r, snd r)
+      end
   end.
+
+(* Dialer.DialContext(address) with Retry.Attempts = attempts *)
+Definition dialer_dial (rules : list rule) (attempts : nat) (outcomes : list bool) (addr : str)
+  : list str * option str :=
+  dial_loop rules redirect_in_retry_loop (effective_attempts attempts) outcomes
+            (if redirect_in_retry_loop then addr else dial_redirect rules addr).
+
+(* one exchange: the hop's address as the routing code hands it to the Dialer (route with no rules: the
+   redirect lives in the Dialer), the Dialer's attempts, then one use of the connection if one was obtained *)
+Definition exchange_o (cfg : config) (rules : list rule) (t : target) (attempts : nat) (outcomes : list bool)
+  : list event :=
+  match route cfg [] t with
+  | OFail => []
+  | OSent a0 tls w n =>
+      let r := dialer_dial rules attempts outcomes a0 in
+      map EvDial (fst r) ++ match snd r with Some a => [EvUse a tls w n] | None => [] end
+  end.
+
+(* the environments the harness scripts: the first `failures` attempts fail, the next one connects *)
+Definition exchange (cfg : config) (rules : list rule) (t : target) (attempts failures : nat) : list event :=
+  exchange_o cfg rules t attempts (repeat false failures ++ [true]).
 
 Definition event_addr (e : event) : str := match e with EvDial a => a | EvUse a _ _ _ => a end.
